@@ -4,7 +4,6 @@
 //! Shapes are those of /verif/spec/HsCore.tla.
 
 use chrono::{Datelike, NaiveDate, Offset, TimeZone, Timelike, Utc};
-use libhaystack::timezone::make_date_time_with_tz;
 use libhaystack::units::get_unit;
 use libhaystack::val::*;
 use serde_json::{json, Map, Value as J};
@@ -140,7 +139,16 @@ pub fn gamma_datetime(o: &Map<String, J>) -> Result<DateTime, String> {
         .and_hms_nano_opt(sod / 3600, (sod / 60) % 60, sod % 60, ns)
         .ok_or("bad time of day")?;
     let utc = Utc.from_utc_datetime(&naive);
-    let dt: DateTime = make_date_time_with_tz(&utc.with_timezone(&Utc.fix()), &tz)?.into();
+    // the zone is resolved against the bundled database here, not by libhaystack's name lookup: a model value is
+    // constructible whatever the decoders make of its zone name
+    let zone: chrono_tz::Tz = match tz.parse::<chrono_tz::Tz>() {
+        Ok(z) => z,
+        Err(_) => *chrono_tz::TZ_VARIANTS
+            .iter()
+            .find(|z| crate::gen::short_name(z.name()) == tz)
+            .ok_or_else(|| format!("TOOL: model zone {tz} is not in the tz database"))?,
+    };
+    let dt: DateTime = DateTime::from(utc.with_timezone(&zone));
     if let Some(off) = o.get("off").and_then(|x| x.as_i64()) {
         let real = dt.offset().fix().local_minus_utc() as i64;
         if real != off {
